@@ -7,12 +7,13 @@ REPO=${SFV_REPO:-/repo}
 git -C $REPO diff --quiet || { echo "repo not clean"; exit 2; }
 for d in seeded/*/; do
   name=$(basename $d)
+  [ -f $d/meta.json ] || continue     # refactor-*: no alarm expected, not part of this regression
   checks=$(python3 -c "
 import json,re,sys
 m=json.load(open('$d/meta.json'))
 ids=re.findall(r'(C\d\d) quick', m.get('caught_by',''))
 print(' '.join(dict.fromkeys(ids[:2])))")
-  git -C $REPO apply $d/patch.diff || { echo "$name: PATCH-DOES-NOT-APPLY"; continue; }
+  git -C $REPO apply "$PWD/$d/patch.diff" || { echo "$name: PATCH-DOES-NOT-APPLY"; continue; }
   res=""
   for p in $checks; do
     ./check $p --tier quick > work/regress-$name-$p.log 2>&1
